@@ -76,7 +76,7 @@ def plan(tier, seed):
                     continue
                 for i in range(shards):
                     tasks.append({"engine": "enum", "n": n, "spec": spec_i, "index": i, "count": shards, "assertions": assertions, "pairs": n <= 3 and not (eq_class and tier == "quick"), "routes": None if n <= 3 else ["parent", "detour"]})
-        examples = 25 if tier == "quick" else 250
+        examples = 50 if tier == "quick" else 250
         for i in range(nshards):
             tasks.append({"engine": "hyp", "examples": examples, "seed": seed * 1000 + i + 100 * assertions, "assertions": assertions})
     return tasks
